@@ -31,49 +31,49 @@ func vp(pt int32, obj unsafe.Pointer, a, b int64) {
 }
 
 const (
-	vpCloseBy = 1
-	vpStatus = 2
-	vpForce = 3
-	vpLock = 4
-	vpUnlock = 5
-	vpStopSpin = 6
-	vpIsUnlock = 7
-	vpOpDo = 10
-	vpOpDone = 11
-	vpOpInuseSpin = 12
-	vpOpUnusedSpin = 13
-	vpOpControl = 14
-	vpOpReset = 15
-	vpCacheAlloc = 16
+	vpCloseBy       = 1
+	vpStatus        = 2
+	vpForce         = 3
+	vpLock          = 4
+	vpUnlock        = 5
+	vpStopSpin      = 6
+	vpIsUnlock      = 7
+	vpOpDo          = 10
+	vpOpDone        = 11
+	vpOpInuseSpin   = 12
+	vpOpUnusedSpin  = 13
+	vpOpControl     = 14
+	vpOpReset       = 15
+	vpCacheAlloc    = 16
 	vpCacheFreeable = 17
-	vpCacheFree = 18
-	vpTrigRead = 20
-	vpTrigWrite = 21
-	vpWaitRead = 22
-	vpWaitReadT = 23
-	vpWaitWrite = 24
-	vpWaitWriteT = 25
-	vpTimerDrainR = 26
-	vpTimerDrainW = 27
-	vpSendmsg = 28
-	vpWaitWriteT2 = 29
-	vpLenAdd = 30
-	vpLenLoad = 31
-	vpWaitSize = 32
-	vpState = 33
-	vpSpawnHup = 40
-	vpHupStart = 41
-	vpHandlerEvent = 42
-	vpPollExit = 43
-	vpFdClose = 50
-	vpFdOpen = 51
-	vpSrvAccept = 60
-	vpSrvCheck = 61
-	vpSrvStore = 62
-	vpSrvClose = 63
-	vpPmStatus = 65
-	vpPmRun = 66
-	vpPdWait = 70
-	vpPdEvent = 71
-	vpDialConnect = 72
+	vpCacheFree     = 18
+	vpTrigRead      = 20
+	vpTrigWrite     = 21
+	vpWaitRead      = 22
+	vpWaitReadT     = 23
+	vpWaitWrite     = 24
+	vpWaitWriteT    = 25
+	vpTimerDrainR   = 26
+	vpTimerDrainW   = 27
+	vpSendmsg       = 28
+	vpWaitWriteT2   = 29
+	vpLenAdd        = 30
+	vpLenLoad       = 31
+	vpWaitSize      = 32
+	vpState         = 33
+	vpSpawnHup      = 40
+	vpHupStart      = 41
+	vpHandlerEvent  = 42
+	vpPollExit      = 43
+	vpFdClose       = 50
+	vpFdOpen        = 51
+	vpSrvAccept     = 60
+	vpSrvCheck      = 61
+	vpSrvStore      = 62
+	vpSrvClose      = 63
+	vpPmStatus      = 65
+	vpPmRun         = 66
+	vpPdWait        = 70
+	vpPdEvent       = 71
+	vpDialConnect   = 72
 )
